@@ -50,7 +50,11 @@ ASSUMPTIONS = [
     "the SciPy distributions and QMC engines are oracles: the raw draw of every call is obtained from an identically seeded twin "
     "(numpy default_rng(seed); uniform/norm/truncnorm.rvs(size=(R',P,D), random_state=rng); Sobol/Halton/LatinHypercube(D, seed=rng).random(R'*P))",
     "range [-1,1] of uniform(loc=-1, scale=2) / truncnorm(a=-1, b=1) draws and [0,1) of QMC points is SciPy's contract; it is checked on every output, not proved",
-    "all samplers of one evaluator share one numpy Generator in the order _init_samplers creates them (observed and reproduced by the twin)",
+    "all samplers of one evaluator share one numpy Generator in the order _init_samplers creates them (observed and reproduced by the twin); "
+    "for a gradient evaluation the twin draws for the samplers in order of first appearance in gradient.samplers (the model's sampler_order, "
+    "which Coq compares with the order the driver used)",
+    "gradient evaluations are issued only when at least one variable is free, with no finite bounds (so _apply_bounds is the identity) and "
+    "absolute few-bit magnitudes",
 ]
 TRUSTED = ["numpy.random.default_rng / scipy.stats / scipy.stats.qmc determinism for equal seeds (twin construction)"]
 
@@ -174,11 +178,11 @@ def gen_cases(tier, rng):
                             c["schedule"] = [0, 0, 0]
                         yield c
     # -- random multi-sampler configurations
-    n = 8000 if thorough else 170
+    n = 8000 if thorough else 230
     for i in range(n):
         yield random_case(rng, big=thorough and i % 4 == 0)
     # -- streams aimed at entry sequences / input regions the random family reaches only rarely
-    for i in range(2400 if thorough else 60):
+    for i in range(2400 if thorough else 100):
         yield special_case(rng, i)
 
 
